@@ -82,6 +82,8 @@ type Env struct {
 	Reqs            []*Req
 	Chooser         traversal.LinkTargetNodePrototypeChooser
 	Panics          []any
+	// OnSend, when set, receives every message the requestor builds (the wire)
+	OnSend func(p peer.ID, reqs []gsmsg.GraphSyncRequest)
 }
 
 type persist struct{}
@@ -116,6 +118,9 @@ func (e *Env) AllocateAndBuildMessage(p peer.ID, size uint64, fn func(*messagequ
 	fn(b)
 	m, _ := b.Build()
 	e.Sent = append(e.Sent, Out{To: p, Reqs: m.Requests()})
+	if e.OnSend != nil && !e.FailSends {
+		e.OnSend(p, m.Requests())
+	}
 	name := messagequeue.Sent
 	var err error
 	if e.FailSends {
@@ -167,17 +172,22 @@ func (e *Env) Unprotect(p peer.ID, tag string) bool { e.Unprotects[string(p)+"/"
 // Start issues request r to peer p and spawns the two readers that keep
 // reading the returned channels, as the property's proviso demands.
 func (e *Env) Start(p peer.ID, r int, exts ...graphsync.ExtensionData) *Req {
+	return e.StartAt(p, r, 0, exts...)
+}
+
+// StartAt issues request r for the DAG below block root.
+func (e *Env) StartAt(p peer.ID, r int, root int, exts ...graphsync.ExtensionData) *Req {
 	rq := &Req{ID: kit.ReqID(r)}
 	ctx := context.WithValue(e.Ctx, graphsync.RequestIDContextKey{}, rq.ID)
 	rq.Ctx, rq.Cancel = context.WithCancel(ctx)
-	prog, errs := e.RM.NewRequest(rq.Ctx, p, kit.Link(0), kit.AllSelector(), exts...)
+	prog, errs := e.RM.NewRequest(rq.Ctx, p, kit.Link(root), kit.AllSelector(), exts...)
 	go func() {
 		for pr := range prog {
 			d := Delivered{Path: pr.Path.String(), BlockPath: pr.LastBlock.Path.String(), Block: -1, V: -1}
 			if pr.LastBlock.Link != nil {
 				d.Block = kit.LinkIndex(pr.LastBlock.Link)
 			} else if d.BlockPath == "" {
-				d.Block = 0 // the root block is loaded directly, not through a link edge
+				d.Block = root // the root block is loaded directly, not through a link edge
 			}
 			if d.Path == d.BlockPath && pr.Node.Kind() == datamodel.Kind_Map {
 				d.IsRoot = true
